@@ -50,3 +50,68 @@ Example C04_nonvacuous :
   gunify 20 (GVarP 0) (GStruct 7 [GVarP 0; GNilP]) [] = Fail /\
   gunify 20 (GStruct 7 [GVarP 0; GScalarP (AStr 5)]) (GStruct 7 [GNilP; GVarP 1]) [] = Ok [(0%N, TNil); (1%N, TAtom (AStr 5))].
 Proof. repeat split; reflexivity. Qed.
+
+(* ------------------------------------------------------------------------------------------------------------------
+   The same statements for the TRANSCRIPTION of gomini/unify.go (GCore.v): walk, CastVar, hasCycle through
+   reflecttools.Any, isLeaf + reflect.DeepEqual, and the descent through reflecttools.ZipReduce with the state as the
+   accumulator, over the reflecttools value model of C18 (Reflect.v).  `tenc` / `senc` encode pointer-shaped values
+   (nil pointers, pointers to scalars, pointers to structs, slices, registered variable pointers `gvar i`) and states as
+   terms and substitutions.  The correspondence check runs THIS transcription against the real EqualO. *)
+Require GMK.Reflect GMK.GCore GMK.GCoreSpec.
+
+(* the transcribed algorithm computes what micro's verified unify computes on the encodings *)
+Theorem C04_code_is_unify : forall f x y s tx ty ts,
+  GCore.tenc x = Some tx -> GCore.tenc y = Some ty -> GCore.senc s = Some ts ->
+  match GCore.gunify f x y s with
+  | GCore.GROOF => True
+  | GCore.GRFail => exists f2, unify f2 tx ty ts = Fail
+  | GCore.GROk s' => exists ts' f2, GCore.senc s' = Some ts' /\ unify f2 tx ty ts = Ok ts'
+  end.
+Proof. exact GCoreSpec.gunify_enc. Qed.
+Print Assumptions C04_code_is_unify.
+
+(* success: the earlier bindings are kept (the new state's encoding extends the old one) and the solutions of the new
+   state are exactly the unifiers of the two values compatible with the old state: a most general unifier *)
+Theorem C04_code_ok : forall f x y s s' tx ty ts,
+  GCore.tenc x = Some tx -> GCore.tenc y = Some ty -> GCore.senc s = Some ts ->
+  GCore.gunify f x y s = GCore.GROk s' ->
+  exists ts', GCore.senc s' = Some ts' /\ (exists ext, ts' = ts ++ ext) /\
+              (forall r, sat r ts' <-> sat r ts /\ inst r tx = inst r ty).
+Proof. exact GCoreSpec.gunify_ok. Qed.
+Print Assumptions C04_code_ok.
+
+(* failure: no finite unifier compatible with the bindings exists *)
+Theorem C04_code_fail : forall f x y s tx ty ts,
+  GCore.tenc x = Some tx -> GCore.tenc y = Some ty -> GCore.senc s = Some ts ->
+  GCore.gunify f x y s = GCore.GRFail -> ~ exists r, sat r ts /\ inst r tx = inst r ty.
+Proof. exact GCoreSpec.gunify_fail. Qed.
+Print Assumptions C04_code_fail.
+
+(* the goal: zero or one state *)
+Theorem C04_code_equalo : forall f x y s l tx ty ts,
+  GCore.tenc x = Some tx -> GCore.tenc y = Some ty -> GCore.senc s = Some ts ->
+  GCore.gequalo f x y s = Some l ->
+  (l = [] /\ ~ exists r, sat r ts /\ inst r tx = inst r ty) \/
+  (exists s' ts', l = [s'] /\ GCore.senc s' = Some ts' /\ (exists ext, ts' = ts ++ ext) /\
+                  forall r, sat r ts' <-> sat r ts /\ inst r tx = inst r ty).
+Proof. exact GCoreSpec.gequalo_spec. Qed.
+Print Assumptions C04_code_equalo.
+
+(* acyclicity is preserved *)
+Theorem C04_code_wf : forall f x y s s' tx ty ts,
+  GCore.tenc x = Some tx -> GCore.tenc y = Some ty -> GCore.senc s = Some ts -> wf ts ->
+  GCore.gunify f x y s = GCore.GROk s' -> exists ts', GCore.senc s' = Some ts' /\ wf ts'.
+Proof. exact GCoreSpec.gunify_wf. Qed.
+Print Assumptions C04_code_wf.
+
+(* non-vacuity, on the transcription: two fresh variables unify by binding one to the other; a variable does not unify with
+   a struct that contains it; a struct pattern against data binds field by field; slices of different length do not unify *)
+Example C04_code_nonvacuous :
+  let str := fun z => Reflect.GPtr (Reflect.GScalar 1 z) in
+  GCore.gunify 20 (GCore.gvar 0) (GCore.gvar 1) [] = GCore.GROk [(0%N, GCore.gvar 1)] /\
+  GCore.gunify 20 (GCore.gvar 0) (Reflect.GStructPtr [GCore.gvar 0; Reflect.GNilPtr]) [] = GCore.GRFail /\
+  GCore.gunify 20 (Reflect.GStructPtr [GCore.gvar 0; str 5%Z]) (Reflect.GStructPtr [Reflect.GNilPtr; GCore.gvar 1]) []
+    = GCore.GROk [(0%N, Reflect.GNilPtr); (1%N, str 5%Z)] /\
+  GCore.gunify 20 (Reflect.GSlice false [str 1%Z; str 2%Z]) (Reflect.GSlice false [str 1%Z; str 2%Z; str 3%Z]) [] = GCore.GRFail /\
+  GCore.tenc (Reflect.GStructPtr [GCore.gvar 0; str 5%Z]) = Some (TPair (TAtom (AInt 2)) (TPair (TVar 0) (TPair (TAtom (AStr 5)) TNil))).
+Proof. repeat split; reflexivity. Qed.
